@@ -1,5 +1,6 @@
 import NdnProofs.Lemmas.Svs
 import NdnProofs.Lemmas.SvsBytes
+import NdnProofs.Lemmas.SvsReach
 /-!
 # C18 — State-vector sync merges monotonically and announces exactly when needed
 
@@ -460,5 +461,179 @@ example : stepBytes (init [7, 4, 8, 2, 110, 48] 1) [0xc9, 5, 0xca, 3, 0xcc, 2, 1
 example : (match stepBytes (init [7, 4, 8, 2, 110, 48] 1) [0xc9, 11, 0xca, 9, 7, 4, 8, 2, 110, 49, 0xcc, 1, 2] with
     | .ok r => some (r.1.loc, r.2) | .error _ => none) =
     some ([([7, 4, 8, 2, 110, 48], 1), ([7, 4, 8, 2, 110, 49], 2)], [Out.missing]) := rfl
+
+end Ndn.C18
+
+namespace Ndn.C18
+open Ndn Ndn.Svs
+
+/-! ### well-formedness of the local vector is an invariant of the byte-level handler
+
+The encode-side theorems above (`vector_roundtrip`, `publish_emits_decodable`, `emitted_vector_is_received`, …) take
+well-formedness of the local vector (`WfVec`: every node id the encoding of a non-empty name whose components are
+single TLV elements, every sequence number below 2^64) as a hypothesis.  It is an invariant: the generic decoder only
+delivers well-formed entries (`C08.parse_wf`), so no byte string received in the vector component can break it. -/
+
+/-- a byte-level event as the network and the application can produce it: **arbitrary** bytes in the vector
+    component (shorter than 2^64 bytes), a wrong-length name, a publication, a timer expiry; a vector handed over
+    already decoded must hold well-formed entries (all vectors that come out of the decoder do) -/
+def ByteEv : EvB → Prop
+  | .raw comp => comp.length < 2 ^ 64
+  | .ev e => GoodEv e
+
+/-- number of publications in a history -/
+def pubs : List EvB → Nat
+  | [] => 0
+  | .ev .publish :: r => pubs r + 1
+  | _ :: r => pubs r
+
+/-- the local vector and the own id are well-formed -/
+def WfLocal (s : State) : Prop := WfVec s.loc ∧ WfId s.selfId
+
+theorem goodEv_decodeEv (e : EvB) (h : ByteEv e) : GoodEv (decodeEv e) := by
+  cases e with
+  | ev e => exact h
+  | raw comp =>
+    simp only [decodeEv]
+    cases hd : decodeVector comp with
+    | none => trivial
+    | some es => exact decodeVector_entries_wf h hd
+
+theorem pubs_cons (e : EvB) (r : List EvB) : pubs (e :: r) = pubInc (decodeEv e) + pubs r := by
+  cases e with
+  | raw comp => simp only [pubs, decodeEv]; cases decodeVector comp <;> simp [pubInc]
+  | ev e => cases e <;> simp [pubs, decodeEv, pubInc, Nat.add_comm]
+
+/-- **local_wf_invariant.** Starting from a well-formed local vector, after **any** history of byte-level
+    receptions (arbitrary bytes), publications and timer expiries the local vector is still well-formed, the own id is
+    unchanged and the own sequence number has grown by the number of publications — provided the sequence number
+    stays below 2^64 (`selfSeq + pubs evs < 2^64`: fewer than 2^64 publications; the one bound that is not an
+    invariant, since `new_data` increments without a check). -/
+theorem local_wf_invariant (s : State) (evs : List EvB) (h : WfLocal s) (he : ∀ e ∈ evs, ByteEv e)
+    (hq : s.selfSeq + pubs evs < 2 ^ 64) :
+    WfLocal (runB s evs) ∧ (runB s evs).selfId = s.selfId ∧ (runB s evs).selfSeq = s.selfSeq + pubs evs := by
+  induction evs generalizing s with
+  | nil => exact ⟨by simpa [runB] using h, rfl, by simp [runB, pubs]⟩
+  | cons e r ih =>
+    have hg := goodEv_decodeEv e (he e (List.mem_cons_self ..))
+    have hpc := pubs_cons e r
+    obtain ⟨hid, hseq⟩ := step_ids s (decodeEv e)
+    have hs1 : (stepB s e).1 = (step s (decodeEv e)).1 := (stepB_refines s e).1
+    have hw1 : WfLocal (stepB s e).1 := by
+      rw [hs1]
+      refine ⟨step_wfVec s _ h.1 h.2 hg ?_, by rw [hid]; exact h.2⟩
+      intro hp; rw [hp] at hpc; simp only [pubInc] at hpc; omega
+    have := ih (stepB s e).1 hw1 (fun x hx => he x (List.mem_cons_of_mem _ hx)) (by rw [hs1, hseq]; omega)
+    simp only [runB]
+    refine ⟨this.1, by rw [this.2.1, hs1, hid], by rw [this.2.2, hs1, hseq]; omega⟩
+
+/-- the states a node can be in: started by `start()` with a well-formed own name, then any history of byte-level
+    events during which the own sequence number stayed below 2^64 -/
+def Reachable (s : State) : Prop :=
+  ∃ (selfId : Bytes) (seq0 : Nat) (evs : List EvB), WfId selfId ∧ (∀ e ∈ evs, ByteEv e) ∧
+    seq0 + pubs evs < 2 ^ 64 ∧ s = runB (init selfId seq0) evs
+
+/-- a reachable state satisfies every well-formedness hypothesis of the encode-side theorems -/
+theorem reachable_wf (s : State) (h : Reachable s) :
+    WF s ∧ WfVec s.loc ∧ WfId s.selfId ∧ s.selfSeq < 2 ^ 64 := by
+  obtain ⟨selfId, seq0, evs, hid, hev, hq, rfl⟩ := h
+  have h0 : WfLocal (init selfId seq0) := by
+    refine ⟨?_, hid⟩
+    intro p hp
+    simp only [init, List.mem_singleton] at hp
+    subst hp
+    exact ⟨hid, by simp only []; omega⟩
+  obtain ⟨⟨h1, h2⟩, _, h4⟩ := local_wf_invariant (init selfId seq0) evs h0 hev hq
+  refine ⟨?_, h1, h2, by rw [h4]; exact hq⟩
+  rw [runB_eq_run]
+  exact wf_run (init selfId seq0) _ (by simp [WF, init, PyDict.keys, vget, PyDict.get?])
+
+/-- **vector_roundtrip_reachable.** In every reachable state, what `express_sync_interest` encodes for the local
+    vector is decoded by the receiving side to exactly the entries of that vector (no well-formedness hypothesis). -/
+theorem vector_roundtrip_reachable (s : State) (hr : Reachable s) (b : Bytes)
+    (he : encodeVector s.loc = .ok b) : decodeVector b = some (entriesOf s.loc) :=
+  vector_roundtrip s.loc (reachable_wf s hr).2.1 b he
+
+/-- **publish_emits_decodable_reachable.** `publish_emits_decodable` for every reachable state: the only remaining
+    hypothesis is that the next sequence number fits 64 bits. -/
+theorem publish_emits_decodable_reachable (s : State) (hr : Reachable s) (hq : s.selfSeq + 1 < 2 ^ 64)
+    (wire : Bytes) (he : encodeVector (step s .publish).1.loc = .ok wire) :
+    (step s .publish).2 = [Out.emit (step s .publish).1.loc] ∧
+    decodeVector wire = some (entriesOf (step s .publish).1.loc) ∧
+    ∀ k, vecOf (entriesOf (step s .publish).1.loc) k = vget (step s .publish).1.loc k := by
+  obtain ⟨h1, h2, h3, _⟩ := reachable_wf s hr
+  exact publish_emits_decodable s h1 h2 h3 hq wire he
+
+/-- **emitted_vector_is_received_reachable.** `emitted_vector_is_received` for every reachable publisher `a` (and any
+    receiver state `b` for which `a` does not over-claim). -/
+theorem emitted_vector_is_received_reachable (a b : State) (ha : Reachable a) (hq : a.selfSeq + 1 < 2 ^ 64)
+    (wire : Bytes) (he : encodeVector (step a .publish).1.loc = .ok wire)
+    (hno : vget (step a .publish).1.loc b.selfId ≤ b.selfSeq) :
+    ∃ r, stepBytes b wire = .ok r ∧
+      (∀ k, vget r.1.loc k = max (vget b.loc k) (vget (step a .publish).1.loc k)) ∧
+      (∀ k, vget (step a .publish).1.loc k ≤ vget r.1.loc k) := by
+  obtain ⟨h1, h2, h3, _⟩ := reachable_wf a ha
+  exact emitted_vector_is_received a b h1 h2 h3 hq wire he hno
+
+/-- **timer_emits_decodable_reachable.** Whatever a reachable node emits on a timer expiry (steady state, or the end
+    of a suppression period) decodes at the peer to exactly its local vector. -/
+theorem timer_emits_decodable_reachable (s : State) (hr : Reachable s) (v : Vec)
+    (hv : Out.emit v ∈ (step s .timer).2) (wire : Bytes) (he : encodeVector v = .ok wire) :
+    v = s.loc ∧ decodeVector wire = some (entriesOf s.loc) := by
+  have hloc : (step s .timer).1.loc = s.loc := by simp only [step]; split <;> rfl
+  have := emits_are_local s .timer v hv
+  rw [hloc] at this
+  subst this
+  exact ⟨rfl, vector_roundtrip_reachable s hr wire he⟩
+
+/-- **encodeVector_reachable_fails_only_oversize.** In a reachable state encoding the local vector succeeds unless
+    some Length in it does not fit 64 bits. -/
+theorem encodeVector_reachable_fails_only_oversize (s : State) (hr : Reachable s) :
+    (∃ b, encodeVector s.loc = .ok b) ∨ encodeVector s.loc = .error .structError :=
+  encodeVector_fails_only_oversize s.loc (reachable_wf s hr).2.1
+
+/-- a publication keeps a state reachable as long as the sequence number fits -/
+theorem reachable_step (s : State) (hr : Reachable s) (e : EvB) (he : ByteEv e)
+    (hq : s.selfSeq + pubs [e] < 2 ^ 64) : Reachable (stepB s e).1 := by
+  obtain ⟨selfId, seq0, evs, hid, hev, hb, rfl⟩ := hr
+  have h0 : WfLocal (init selfId seq0) := by
+    refine ⟨?_, hid⟩
+    intro p hp
+    simp only [init, List.mem_singleton] at hp
+    subst hp
+    exact ⟨hid, by simp only []; omega⟩
+  have hseq := (local_wf_invariant (init selfId seq0) evs h0 hev hb).2.2
+  have hrun : ∀ (t : State) (l : List EvB), runB t (l ++ [e]) = (stepB (runB t l) e).1 := by
+    intro t l
+    induction l generalizing t with
+    | nil => simp [runB]
+    | cons x r ih => simp only [List.cons_append, runB]; exact ih _
+  have hp : ∀ (l : List EvB), pubs (l ++ [e]) = pubs l + pubs [e] := by
+    intro l
+    induction l with
+    | nil => simp [pubs]
+    | cons x r ih =>
+      rw [List.cons_append, pubs_cons, pubs_cons, ih]; omega
+  refine ⟨selfId, seq0, evs ++ [e], hid, ?_, ?_, (hrun _ _).symm⟩
+  · intro x hx
+    rcases List.mem_append.mp hx with h | h
+    · exact hev x h
+    · simp only [List.mem_singleton] at h; subst h; exact he
+  · rw [hp]; rw [hseq] at hq; simp only [init] at hq; omega
+
+/-! non-vacuity: node /n0 after start, a garbage component, a peer's vector in bytes and a publication is reachable -/
+example : Reachable (runB (init [7, 4, 8, 2, 110, 48] 1)
+    [.raw [0xff, 0, 1], .raw [0xc9, 11, 0xca, 9, 7, 4, 8, 2, 110, 49, 0xcc, 1, 2], .ev .publish, .ev .timer]) := by
+  refine ⟨_, 1, _, ⟨[[8, 2, 110, 48]], by simp, by decide, by decide, by decide⟩, ?_, by decide, rfl⟩
+  intro e he
+  simp only [List.mem_cons, List.not_mem_nil, or_false] at he
+  rcases he with rfl | rfl | rfl | rfl
+  · show (3 : Nat) < 2 ^ 64; decide
+  · show (13 : Nat) < 2 ^ 64; decide
+  · trivial
+  · trivial
+example : (runB (init [7, 4, 8, 2, 110, 48] 1)
+    [.raw [0xff, 0, 1], .raw [0xc9, 11, 0xca, 9, 7, 4, 8, 2, 110, 49, 0xcc, 1, 2], .ev .publish, .ev .timer]).loc
+    = [([7, 4, 8, 2, 110, 48], 2), ([7, 4, 8, 2, 110, 49], 2)] := by rfl
 
 end Ndn.C18
